@@ -186,6 +186,9 @@ def mk_not(x):
 def mk_eq(a, b):
     if a == b:
         return ('const', 1)
+    for x, y in ((a, b), (b, a)):
+        if x == ('null',) and isinstance(y, tuple) and y and y[0] in ('addr', 'new'):
+            return ('const', 0)       # the address of an object / a fresh allocation is not null
     x, y = sorted((a, b), key=repr)
     return ('eq', x, y)
 
@@ -253,7 +256,7 @@ class PathResult:
 class Event:
     """kind: 'call' (any call / construct; nf = its value), 'store' (place, value), 'mutate' (place, how),
     'init' (field name, value, written), 'baseinit' (callee side entry, args)"""
-    __slots__ = ('kind', 'node', 'nf', 'place', 'how', 'value', 'conds_n', 'extra', 'ver')
+    __slots__ = ('kind', 'node', 'nf', 'place', 'how', 'value', 'conds_n', 'extra', 'ver', 'inlined', 'depth')
 
     def __init__(self, kind, node, nf=None, place=None, how=None, value=None, conds_n=0, extra=None):
         self.kind = kind
@@ -265,6 +268,8 @@ class Event:
         self.conds_n = conds_n   # number of branch conditions decided before this event
         self.extra = extra
         self.ver = None          # versions of all places just before the event
+        self.inlined = False     # call / baseinit whose callee's own events follow in the same path (statement-level inlining)
+        self.depth = 0           # inlining depth at which the event happened (0 = the analysed function itself)
 
     def __repr__(self):
         return 'Event(%s, %s, place=%s, how=%s)' % (self.kind, show(self.nf) if self.nf else None,
@@ -280,6 +285,8 @@ class _State:
         self.conds = []
         self.events = []
         self.term = None
+        self.vals = {}      # call node id -> value returned by the (inlined / summarised) callee on this path
+        self.stack = ()     # ids of the functions being inlined (recursion guard)
 
     def clone(self):
         s = _State(dict(self.env), self.this)
@@ -288,19 +295,31 @@ class _State:
         s.conds = list(self.conds)
         s.events = list(self.events)
         s.term = self.term
+        s.vals = dict(self.vals)
+        s.stack = self.stack
         return s
 
 
 class SymExec:
     MAX_PATHS = 4000
 
-    def __init__(self, tu, own=lambda f: False):
+    MAX_INLINE_DEPTH = 6
+
+    def __init__(self, tu, own=lambda f: False, inline_stmt=None, recognise_search=False):
         """own(fn entry) -> may calls to this function be replaced by its returned value when it is a
-        single-path function without side effects?"""
+        single-path function without side effects?
+        inline_stmt(fn entry) -> follow calls to this function: its paths are spliced into the caller's paths (its
+        conditions, events and returned value appear in the caller's terms; a callee path that throws ends the caller's
+        path with that throw).  Used for private / static helpers and file-local functions.
+        recognise_search: a callee whose summary is a linear search (first element of [first, last) whose key equals
+        an argument, else last) is replaced by the value std::find_if would return, whatever it is called."""
         self.tu = tu
         self.own = own
+        self.inline_stmt = inline_stmt or (lambda f: False)
+        self.recognise_search = recognise_search
         self._pure = {}
         self._paths = {}
+        self._search = {}
 
     # ------------------------------------------------------------------ places and versions
     def place_version(self, place, st):
@@ -364,6 +383,8 @@ class SymExec:
         if depth > 60:
             return ('opaque', 'depth', e.get('id'))
         k = e.get('kind')
+        if st.vals and e.get('id') in st.vals:
+            return st.vals[e['id']]
         ks = tu.kids(e)
         rec = lambda x: self.nf(x, st, depth + 1)
         if k == 'ImplicitCastExpr':
@@ -827,7 +848,12 @@ class SymExec:
             k = n.get('kind')
             if k == 'DeclRefExpr':
                 rd = n.get('referencedDecl', {})
-                return rd.get('id') if rd.get('kind') == 'VarDecl' else None
+                if rd.get('kind') == 'VarDecl':
+                    return rd.get('id')
+                if rd.get('kind') == 'ParmVarDecl':
+                    qt = (rd.get('type') or {}).get('qualType', '')
+                    return rd.get('id') if not qt.rstrip().endswith('&') else None
+                return None
             if k in TRANSP or k == 'ImplicitCastExpr' or k == 'CXXStaticCastExpr':
                 ks = self.tu.kids(n)
                 n = ks[0] if ks else None
@@ -839,7 +865,30 @@ class SymExec:
             return None
         return None
 
-    def on_stmt(self, n, st):
+    def splice(self, callee, this_nf, vals, st, depth, node_id):
+        """run the callee's paths in the caller's state; returns the list of continuation states (a state whose
+        term is ('throw', ..) ends the caller's path)"""
+        saved_this, saved_term, saved_stack = st.this, st.term, st.stack
+        st.this = this_nf
+        st.term = None
+        st.stack = st.stack + (callee['id'],)
+        for p, v in zip(callee.get('params', []), vals):
+            st.env[p['id']] = v
+        out = []
+        for s2, _ in self._walk_fn(callee, st, depth + 1):
+            t = s2.term
+            s2.this, s2.stack = saved_this, saved_stack
+            if t is not None and t[0] == 'throw':
+                out.append(s2)
+                continue
+            if node_id is not None:
+                s2.vals[node_id] = t[1] if (t is not None and t[0] == 'return' and t[1] is not None) else ('void',)
+            s2.term = saved_term
+            out.append(s2)
+        return out
+
+    def on_stmt(self, n, st, depth=0):
+        """process one CFG statement element; returns None, or the list of continuation states when a call was followed"""
         tu = self.tu
         k = n.get('kind')
         nc = len(st.conds)
@@ -860,7 +909,10 @@ class SymExec:
             if k == 'CompoundAssignOperator':
                 val = ('binop', n.get('opcode'), self.nf(ks[0], st), val)
             lhs = unver(self.nf(ks[0], st))
-            st.events.append(Event('store', n, nf=lhs, place=place, value=val, conds_n=nc))
+            sev = Event('store', n, nf=lhs, place=place, value=val, conds_n=nc)
+            sev.depth = depth
+            sev.ver = dict(st.ver)
+            st.events.append(sev)
             if place is not None:
                 self.bump(place, st)
                 if place[0] == 'var':
@@ -883,16 +935,35 @@ class SymExec:
             if k in ('CXXConstructExpr', 'CXXTemporaryObjectExpr'):
                 if n.get('elidable'):
                     return
-            val = self.nf(n, st)
+            callee = tu.callee_fn(n)
+            has_body = callee is not None and tu.cfg(callee) is not None
+            is_ctor = k in ('CXXConstructExpr', 'CXXTemporaryObjectExpr')
+            follow = (has_body and not is_ctor and depth < self.MAX_INLINE_DEPTH and callee['id'] not in st.stack
+                      and self.inline_stmt(callee))
+            summ = self.search_summary(callee) if (follow and self.recognise_search) else None
+            if summ is not None:
+                vals = self.args_nf(sd, args, st, 0)
+                val = self.apply_search(summ, callee, vals)
+                st.vals[n['id']] = val
+                follow = False
+            else:
+                st.vals.pop(n['id'], None)      # re-evaluation in a later loop iteration
+                val = self.nf(n, st)
+                st.vals[n['id']] = val
             name = self.call_name(sd, n)
             ev = Event('call', n, nf=val, how=name, conds_n=nc, extra=(sd, obj, args))
             ev.ver = dict(st.ver)
-            if sd.get('rec') and k not in ('CXXConstructExpr', 'CXXTemporaryObjectExpr'):
+            ev.depth = depth
+            if sd.get('rec') and not is_ctor:
                 ev.place = unver(self.call_obj(n, obj, st))   # the object the member is called on
             ev.value = tuple(self.args_nf(sd, args, st, 0))
             st.events.append(ev)
-            callee = tu.callee_fn(n)
-            has_body = callee is not None and tu.cfg(callee) is not None
+            if follow:
+                ev.inlined = True
+                this_nf = self.call_obj(n, obj, st) if (sd.get('rec') and not callee.get('static')) else st.this
+                if sd.get('rec') and not callee.get('static') and obj is None:
+                    this_nf = st.this
+                return self.splice(callee, this_nf, list(ev.value), st, depth, n['id'])
             muts = []
             lname = last(self.call_name(sd))
             if obj is not None and sd.get('rec') and not has_body and k not in ('CXXConstructExpr', 'CXXTemporaryObjectExpr'):
@@ -926,7 +997,7 @@ class SymExec:
                 self.bump(p, st)
             return
 
-    def on_init(self, e, st):
+    def on_init(self, e, st, depth=0):
         tu = self.tu
         init = tu.node(e[1])
         name = e[3]
@@ -937,12 +1008,20 @@ class SymExec:
             args = []
             if x is not None and x.get('kind') in ('CXXConstructExpr', 'CXXTemporaryObjectExpr'):
                 args = self.args_nf(sd, tu.kids(x), st, 0)
-            st.events.append(Event('baseinit', init, nf=tuple(args), how=self.call_name(sd) if sd else None, conds_n=nc,
-                                   extra=(sd, x)))
+            bev = Event('baseinit', init, nf=tuple(args), how=self.call_name(sd) if sd else None, conds_n=nc, extra=(sd, x))
+            bev.depth = depth
+            st.events.append(bev)
+            callee = tu.functions.get(sd.get('def') or sd.get('d')) if sd else None
+            if callee is not None and tu.cfg(callee) is not None and depth < self.MAX_INLINE_DEPTH and callee['id'] not in st.stack \
+                    and self.inline_stmt(callee):
+                bev.inlined = True
+                return self.splice(callee, st.this, list(args), st, depth, None)
             return
         val = self.nf(init, st) if init is not None else ('definit',)
         place = ('field', unver(st.this), name)
-        st.events.append(Event('init', init, nf=val, place=place, how=name, value=val, conds_n=nc, extra=bool(e[4])))
+        iev = Event('init', init, nf=val, place=place, how=name, value=val, conds_n=nc, extra=bool(e[4]))
+        iev.depth = depth
+        st.events.append(iev)
         self.bump(place, st)
 
     # ------------------------------------------------------------------ paths
@@ -951,68 +1030,205 @@ class SymExec:
         key = (fn['id'], this, tuple(args) if args is not None else None)
         if key in self._paths:
             return self._paths[key]
-        g = self.tu.cfg(fn)
-        if g is None:
+        if self.tu.cfg(fn) is None:
             raise Unsupported('no CFG for %s' % fn['q'])
         env = {}
         for i, p in enumerate(fn.get('params', [])):
             env[p['id']] = args[i] if args is not None and i < len(args) else ('param', i, p.get('name') or '')
         st0 = _State(env, this)
+        st0.stack = (fn['id'],)
         out = []
-        stack = [(g.entry, st0, ())]
-        while stack:
-            bid, st, visited = stack.pop()
-            if visited.count(bid) >= 2:
-                continue
-            visited = visited + (bid,)
-            blk = g.blocks[bid]
-            for e in blk.el:
-                if e[0] == 'S':
-                    n = self.tu.node(e[1])
-                    if n is not None:
-                        self.on_stmt(n, st)
-                elif e[0] == 'I':
-                    self.on_init(e, st)
-            if bid == g.exit:
-                out.append(PathResult(st.conds, st.events, st.term or ('end',), st.ver, st.env, visited))
-                if len(out) > self.MAX_PATHS:
-                    raise Unsupported('too many paths in %s' % fn['q'])
-                continue
-            succ = blk.succ
-            live = [(i, s) for i, s in enumerate(succ) if s is not None]
-            if len(succ) > 2:
-                raise Unsupported('multi-way branch in %s' % fn['q'])
-            if len(succ) == 2 and blk.cond:
-                cn = self.tu.node(blk.cond)
-                # the value that decides at this block: for `a && b` / `a || b` it is b (a was decided earlier)
-                while True:
-                    x = self.tu.strip(cn)
-                    if x is not None and x.get('kind') == 'BinaryOperator' and x.get('opcode') in ('&&', '||'):
-                        cn = self.tu.kids(x)[1]
-                    else:
-                        break
-                c = truth(self.nf(cn, st))
-                c = self._as_cond(c, cn)
-                v = self.known_value(c, st)
-                for i, s in live:
-                    pol = (i == 0)
-                    if v is not None and v != pol:
-                        continue
-                    s2 = st.clone() if len(live) > 1 else st
-                    base, neg = (c[1], True) if (isinstance(c, tuple) and c and c[0] == 'not') else (c, False)
-                    s2.conds.append((base, pol != neg, blk.cond))
-                    s2.known[unver(base)] = (pol != neg)
-                    stack.append((s, s2, visited))
-            elif len(live) == 1:
-                stack.append((live[0][1], st, visited))
-            elif len(live) == 0:
-                # no successor (noreturn without edge to exit)
-                out.append(PathResult(st.conds, st.events, st.term or ('end',), st.ver, st.env, visited))
-            else:
-                for i, s in live:
-                    stack.append((s, st.clone(), visited))
+        for st, visited in self._walk_fn(fn, st0, 0):
+            out.append(PathResult(st.conds, st.events, st.term or ('end',), st.ver, st.env, visited))
         self._paths[key] = out
         return out
+
+    def _walk_fn(self, fn, st, depth):
+        """[(state at the exit of fn, visited blocks)] for every path of fn started in state st"""
+        g = self.tu.cfg(fn)
+        if g is None:
+            raise Unsupported('no CFG for %s' % fn['q'])
+        results = []
+        self._run(fn, g, g.entry, 0, st, (), depth, results, True)
+        return results
+
+    def _run(self, fn, g, bid, idx, st, visited, depth, results, fresh):
+        if fresh:
+            if visited.count(bid) >= 2:
+                return
+            visited = visited + (bid,)
+        blk = g.blocks[bid]
+        els = blk.el
+        i = idx
+        while i < len(els):
+            e = els[i]
+            forks = None
+            if e[0] == 'S':
+                n = self.tu.node(e[1])
+                if n is not None:
+                    forks = self.on_stmt(n, st, depth)
+            elif e[0] == 'I':
+                forks = self.on_init(e, st, depth)
+            if forks is not None:
+                for s2 in forks:
+                    if s2.term is not None and s2.term[0] == 'throw':
+                        results.append((s2, visited))      # the callee threw: this path ends here
+                    else:
+                        self._run(fn, g, bid, i + 1, s2, visited, depth, results, False)
+                if len(results) > self.MAX_PATHS:
+                    raise Unsupported('too many paths in %s' % fn['q'])
+                return
+            i += 1
+        if bid == g.exit:
+            results.append((st, visited))
+            if len(results) > self.MAX_PATHS:
+                raise Unsupported('too many paths in %s' % fn['q'])
+            return
+        succ = blk.succ
+        live = [(j, s) for j, s in enumerate(succ) if s is not None]
+        if len(succ) > 2:
+            raise Unsupported('multi-way branch in %s' % fn['q'])
+        if len(succ) == 2 and blk.cond:
+            cn = self.tu.node(blk.cond)
+            # the value that decides at this block: for `a && b` / `a || b` it is b (a was decided earlier)
+            while True:
+                x = self.tu.strip(cn)
+                if x is not None and x.get('kind') == 'BinaryOperator' and x.get('opcode') in ('&&', '||'):
+                    cn = self.tu.kids(x)[1]
+                else:
+                    break
+            c = truth(self.nf(cn, st))
+            c = self._as_cond(c, cn)
+            v = self.known_value(c, st)
+            for j, s in live:
+                pol = (j == 0)
+                if v is not None and v != pol:
+                    continue
+                s2 = st.clone() if len(live) > 1 else st
+                base, neg = (c[1], True) if (isinstance(c, tuple) and c and c[0] == 'not') else (c, False)
+                s2.conds.append((base, pol != neg, blk.cond))
+                s2.known[unver(base)] = (pol != neg)
+                self._run(fn, g, s, 0, s2, visited, depth, results, True)
+        elif len(live) == 1:
+            self._run(fn, g, live[0][1], 0, st, visited, depth, results, True)
+        elif len(live) == 0:
+            results.append((st, visited))       # no successor (noreturn without edge to exit)
+        else:
+            for j, s in live:
+                self._run(fn, g, s, 0, st.clone(), visited, depth, results, True)
+
+    # ------------------------------------------------------------------ linear-search helpers
+    def search_summary(self, fn):
+        """(first, last, predicate body over ('lparam',0)) in terms of fn's parameters if fn is a linear search:
+        it walks a cursor from `first`, tests `cursor == last` before it tests the element, returns the cursor at the
+        first element whose test `key(elem) == K` holds and `last` (the cursor value equal to it) when there is none;
+        it has no other effect.  None otherwise."""
+        fid = fn['id']
+        if fid in self._search:
+            return self._search[fid]
+        self._search[fid] = None
+        saved = (self.inline_stmt, self.recognise_search)
+        self.inline_stmt, self.recognise_search = (lambda f: False), False
+        try:
+            try:
+                ps = self.paths(fn)
+            except Unsupported:
+                return None
+        finally:
+            self.inline_stmt, self.recognise_search = saved
+        cursor = None
+        for p in ps:
+            for ev in p.events:
+                if ev.kind in ('store', 'init', 'baseinit'):
+                    return None
+                if ev.kind == 'mutate':
+                    if ev.place is None or ev.place[0] != 'var' or ev.how not in ('++', 'operator++'):
+                        return None
+                    if cursor is not None and cursor != ev.place:
+                        return None
+                    cursor = ev.place
+            if p.term[0] != 'return' or p.term[1] is None:
+                return None
+        if cursor is None:
+            return None
+        c0s = {unver(p.term[1]) for p in ps if not any(ev.kind == 'mutate' for ev in p.events)}
+        if len(c0s) != 1:
+            return None
+        c0 = c0s.pop()
+        if contains(c0, cursor):
+            return None
+        last_nf = None
+        body = None
+        for p in ps:
+            incs = sorted(ev.conds_n for ev in p.events if ev.kind == 'mutate')
+            cur = c0
+            k = 0              # index into conds
+            ninc = 0
+            conds = [(unver(c), pol) for c, pol, _ in p.conds]
+            done = False
+            while k < len(conds):
+                c, pol = conds[k]
+                # end test
+                if not (isinstance(c, tuple) and c[0] == 'eq' and cur in c[1:]):
+                    return None
+                other = c[2] if c[1] == cur else c[1]
+                if contains(other, cursor) or other == cur:
+                    return None
+                if last_nf is None:
+                    last_nf = other
+                elif last_nf != other:
+                    return None
+                k += 1
+                if pol:                       # cursor == last: must return now
+                    done = True
+                    break
+                if k >= len(conds):
+                    return None
+                c, pol = conds[k]
+                elem = ('deref', cur)
+                if not contains(c, elem):
+                    return None
+                b = self._subst(c, {elem: ('lparam', 0)})
+                if contains(b, cur) or contains(b, cursor):
+                    return None
+                if body is None:
+                    body = b
+                elif body != b:
+                    return None
+                k += 1
+                if pol:                       # element matches: must return now
+                    done = True
+                    break
+                # no match: exactly one increment before the next test
+                if ninc >= len(incs) or incs[ninc] != k:
+                    return None
+                ninc += 1
+                cur = cursor
+            if not done or k != len(conds) or ninc != len(incs):
+                return None
+            if unver(p.term[1]) != cur:
+                return None
+        if last_nf is None or body is None:
+            return None
+        if not (isinstance(body, tuple) and body[0] == 'eq'):
+            return None
+        self._search[fid] = (c0, last_nf, body)
+        return self._search[fid]
+
+    def apply_search(self, summ, fn, vals):
+        c0, last_nf, body = summ
+        m = {}
+        for i, p in enumerate(fn.get('params', [])):
+            if i < len(vals):
+                m[('param', i, p.get('name') or '')] = vals[i]
+        return ('call', 'std::find_if', None, self._subst(c0, m), self._subst(last_nf, m), ('pred', self._subst(body, m)))
+
+    def _subst(self, nf, m):
+        if nf in m:
+            return m[nf]
+        if isinstance(nf, tuple):
+            return tuple(self._subst(x, m) for x in nf)
+        return nf
 
     def _as_cond(self, c, node):
         """conditions of pointer / integer type used directly (`if (p)`) - the cast to bool is implicit in the AST
